@@ -174,7 +174,7 @@ def free_ids(e, acc=None):
 # contract files
 
 CLAUSES = {'requires', 'ensures', 'panics_if', 'panics_only_if', 'throws_if', 'loop', 'mode', 'inline', 'assigns', 'uses', 'ghost', 'assume',
-           'unroll', 'after', 'at', 'note', 'pre_note', 'cover', 'opaque', 'replay', 'bounded', 'abstract', 'let', 'trusted', 'returns_struct', 'param', 'results', 'oncall', 'induct', 'hint', 'unfold', 'initval', 'recv_may_be_nil', 'crashinv', 'returns', 'preserves', 'interpret', 'throws_msg', 'trusted_until_proved', 'panic_ensures', 'word', 'prune', 'captured'}
+           'unroll', 'after', 'at', 'note', 'pre_note', 'cover', 'opaque', 'replay', 'bounded', 'abstract', 'let', 'trusted', 'returns_struct', 'param', 'results', 'oncall', 'induct', 'hint', 'unfold', 'initval', 'recv_may_be_nil', 'crashinv', 'returns', 'preserves', 'interpret', 'throws_msg', 'trusted_until_proved', 'panic_ensures', 'word', 'prune', 'captured', 'throws_when', 'abstract_rest'}
 TOP = {'func', 'js', 'pure', 'axiom', 'lemma', 'region', 'extern', 'property', 'pattern', 'table', 'site', 'const', 'sort', 'ufunc', 'ghostfn'}
 
 class Clause:
